@@ -1054,7 +1054,7 @@ RULE = ("point sets of 20..600 points (search tier: 6..40): family 'sheets' = tw
         "where that is the same number. Each case: measure_thickness_cpu; numba find_matches_parallel + "
         "process_matches_gpu2cpu; re-runs on a rigidly moved copy, a voxel-rescaled copy (maximum scaled along) and the surface-swapped "
         "copy; 30%: the same data at another voxel size with the SAME max_thickness_nm (judged as an input of its own); 30%: cross-call "
-        "stream - the same caller-owned arrays, some labels cleared IN PLACE, go into a second and a third call (judged like the "
+        "stream - the same candidate list object (the numba kernel's candidates as (dist, source, target) tuples) handed to process_matches_cpu2cpu twice, second call at another voxel size, each call judged like a first call on the candidates given (35%); the same caller-owned arrays, some labels cleared IN PLACE, go into a second and a third call (judged like the "
         "first; all caller-owned arrays compared before/after every call); ~22%: END TO END through the entry point measure_membrane_thickness "
         "on a synthetic segmentation MRC (voxel size in the header) + vertex CSV (x/y/z_voxel, x/y/z_physical, normal_*, surface1/2 as "
         "True/False or 1/0, integral columns written as integers in half of them), use_gpu=False or left at its default True (no CUDA device: CPU "
@@ -1188,6 +1188,7 @@ def corpus():
             c.setdefault("family", "corpus"); c.setdefault("shape", os.path.basename(p)[:-5])
             c.setdefault("motion", None); c.setdefault("k", None)
             c.setdefault("gpu", len(c["lab"]) <= GPU_MAX_POINTS)
+            c.setdefault("reuse", 2.0)  # every hand-written case: its candidate list goes through process_matches_cpu2cpu twice
             # every hand-written case also goes END TO END through the entry point (CPU branch here, GPU branch under the simulator) where the
             # voxel size survives the MRC header (float32) unchanged, so that its boundary constructions stay what they are
             if "top" not in c and _veff(c["voxel"]) == c["voxel"]:
@@ -1316,6 +1317,8 @@ def _pre_options(rng, exact):
     o["intpts"] = exact and rng.random() < 0.3
     o["voxel_type"] = rng.choice(["float", "float", "float", "int", "float32"])
     # the top-level entry point measure_membrane_thickness on a synthetic MRC + CSV (end to end)
+    # the SAME candidate list object handed to process_matches_cpu2cpu twice (second call at another voxel size: other output unit)
+    o["reuse"] = rng.choice([2.0, 0.5, 1.25]) if rng.random() < 0.35 else None
     o["top"] = None
     if rng.random() < 0.22:
         o["top"] = dict(use_gpu=rng.choice(["omit", False, False]), ints=rng.random() < 0.5, flags=rng.choice(["bool", "01"]),
@@ -1329,7 +1332,7 @@ def _options(case, o):
         r = case["maxnm"] / case["voxel"]
         case["voxel"], case["maxnm"] = 8.0 / r, 8.0
     case.update(omit=o["omit"], pass_cap=o["pass_cap"], gpu=o["gpu"] and len(case["lab"]) <= GPU_MAX_POINTS, kv=o["kv"], edit=o["edit"],
-                nolog=o["nolog"], threads=o["threads"], intpts=o["intpts"], voxel_type=o["voxel_type"], top=o["top"])
+                nolog=o["nolog"], threads=o["threads"], intpts=o["intpts"], voxel_type=o["voxel_type"], top=o["top"], reuse=o.get("reuse"))
 
 
 def _gen_sheets(rng, nmin, nmax):
@@ -1524,7 +1527,7 @@ def shrink(case):
     n = len(case["lab"])
     # first the call options: every one dropped makes the later evaluations cheaper
     for fld, simple in (("top", None), ("edit", None), ("kv", None), ("motion", None), ("k", None), ("gpu", False), ("omit", []), ("pass_cap", False),
-                        ("nolog", False), ("threads", None), ("intpts", False), ("voxel_type", "float")):
+                        ("nolog", False), ("threads", None), ("intpts", False), ("voxel_type", "float"), ("reuse", None)):
         if case.get(fld) and case.get(fld) != simple:
             c = dict(case); c[fld] = simple
             yield c
@@ -2017,6 +2020,16 @@ def run_impl(case):
     ret = memthick.process_matches_gpu2cpu(mdf, mif, mc, n, CAP, case["voxel"])
     obs["kernel"] = dict(cands=cands, counts_on_non_sources=int(mc[~sm].sum()), counts_over_cap=int(((mc > CAP) | (mc < 0)).sum()), **_pairs(ret))
     obs["kernel"]["inputs_unchanged"] = bool(kernel_inputs_unchanged and _same(before, mdf, mif, mc))
+    # multi-step history on the assignment loop: the kernel's candidates as the (dist, source, target) tuples measure_thickness_cpu builds, the
+    # SAME list object handed to process_matches_cpu2cpu twice (the list is in voxel units; the second call asks for another output unit).
+    # The library may reorder the caller's list (it sorts it in place) but each call must pair the candidates it was GIVEN
+    if case.get("reuse"):
+        flat = [(float(d), int(s_), int(t_)) for s_, t_, d in cands]
+        given = sorted(flat)
+        first = _pairs(memthick.process_matches_cpu2cpu(flat, n, case["voxel"]))
+        left = len(flat)
+        second = _pairs(memthick.process_matches_cpu2cpu(flat, n, case["voxel"] * case["reuse"]))
+        obs["reuse"] = dict(first=first, second=second, n_given=len(given), n_left_after_first=left, same_multiset_after=bool(sorted(flat) == given))
     # the statement's invariances, observed on the real code
     mo = case.get("motion")
     if mo:
@@ -2077,6 +2090,11 @@ def _plan(case, obs):
     gt = g.get("top") if isinstance(g, dict) else None
     if isinstance(gt, dict) and "pairs" in gt:
         plan.append("gputop")
+    ru = obs.get("reuse")
+    if isinstance(ru, dict):
+        for k in ("first", "second"):
+            if "pairs" in ru[k]:
+                plan.append("reuse-" + k)
     return plan
 
 
@@ -2120,6 +2138,8 @@ def requests(case, obs):
             q["pts"] = _flat(_case32(case))
             q["voxel"] = f2b(obs["gpu"]["top"]["veff"])
             q["out_kernel"] = _in_range(obs["gpu"]["top"]["pairs"], n)
+        elif tag.startswith("reuse-"):  # both calls are judged on the ORIGINAL candidates (same points, same radius in voxels, strict ball of the kernel)
+            q["out_kernel"] = _in_range(obs["reuse"][tag[6:]]["pairs"], n)
         out.append(q)
     return out
 
@@ -2343,7 +2363,17 @@ def judge(case, obs, resps):
             th3 = obs["third"]
             if th3["pairs"] != sc["pairs"] or th3["th"] != sc["th"]:  # the model is a function of its arguments; the statement does not speak about repetition: corr
                 out.append(dict(kind="corr", clause="repeated-call-gives-a-different-result", detail=f"same arrays, same arguments: {len(sc['pairs'])} pairs, then {len(th3['pairs'])}"))
-    # ---- the top-level entry point measure_membrane_thickness, end to end (CPU branch: inside the quantifier) --------------------------
+    # ---- the same candidate list handed to process_matches_cpu2cpu twice: each call judged like a first call on the candidates it was given ----
+    ru = obs.get("reuse")
+    if isinstance(ru, dict):
+        for k, kk in (("first", 1.0), ("second", case["reuse"])):
+            who = f"candidate-list-reused:{k}-call:"
+            o = ru[k]
+            if _usable(who, o, n, out):
+                RR = RS["reuse-" + k]
+                _checker(who, RR.get("check_kernel"), RR.get("check_kernel_alt"), out, capped=capped(RR))
+                out += _direct(dict(case, voxel=case["voxel"] * kk, maxnm=case["maxnm"] * kk), o, who)
+                _vs_model(who.rstrip(":"), o, [[s_, t_, d_, f2b(b2f(d_) * case["voxel"] * kk)] for s_, t_, d_, _th in RR["pairs_strict"]], out)
     t = obs.get("top")
     if isinstance(t, dict) and _usable_top("top:", t, n, out, "spec"):
         ct, RT = dict(case, voxel=t["veff"]), RS["top"]
@@ -2448,6 +2478,7 @@ def stats(case, obs, resps):
     if R and "error" not in R:
         st["quantifier"] = "outside:more-than-25-admissible-targets-for-a-source" if max(R.get("max_per_source", 0), R.get("max_per_source_strict", 0)) > CAP else "inside"
     st["cap_passed_explicitly"] = bool(case.get("pass_cap"))
+    st["candidate_list_handed_to_assignment_loop_twice"] = str(case.get("reuse"))
     st["second_voxel_size_same_max_nm"] = str(case.get("kv"))
     st["cross_call_edit_unlabelled_points"] = _bucket(len((case.get("edit") or {}).get("unlabel", [])), [0, 1, 2, 3, 10])
     st["returned_dtypes"] = f"{obs['cpu'].get('dtype')}/{obs['cpu'].get('valid_dtype')}/{obs['cpu'].get('pp_dtype')}"
